@@ -125,6 +125,23 @@ PROPS = {
              "semantics of cmpeq/movemask/cmpgt/or; harness/hooks. NEON/LSX back-ends cannot be built here and are not covered; "
              "big-endian to_le path not tied.",
     ),
+    "C04": dict(
+        module="Hb.Props.C04",
+        ties=[("scen", "panic-sat-nodrop", 6, 150), ("scen", "panic-sat-drop", 6, 150), ("scen", "panic-mixed", 8, 200)],
+        backends=["sse2", "portable"],
+        design="§7 C04, §10 F1",
+        text="Lean theorems for every environment, table state and panic position: a hasher panic inside resize leaves the "
+             "table unchanged and frees the new block; a hasher panic inside in-place rehash leaves a table satisfying the "
+             "structural invariant with len = #elements and every element kept or dropped exactly once; neither path can "
+             "fault. Machine-checked witness of defect F1 (guard as shipped in 0.15.2) and of the repaired guard. Tie: "
+             "enumerated fault sweeps — for base histories (incl. in-place rehash, with and without drop glue) and each "
+             "selected operation, every k-th invocation of every callback class (Hash, Eq, Clone, predicate, Drop) panics; "
+             "after catch_unwind the full state is compared with the model and judged by direct oracles (structural "
+             "invariant, ownership ledger: no double drop / no leak unless a destructor panicked, len = #yielded = #found).",
+        note="Trusted: Lean kernel, axioms propext/Classical.choice/Quot.sound; harness, hooks, protocol. Callback classes "
+             "Into (entry_ref) and extend-iterator panics are covered by the entry profile once C14's tie is present. Panics "
+             "inside Drop while already unwinding abort the process by Rust's rules and are excluded.",
+    ),
     "C09": dict(
         module="Hb.Props.C09",
         ties=[("scen", "iter", 300, 10000), ("scen", "mixed", 200, 6000), ("scen", "saturate", 40, 2000)],
